@@ -46,8 +46,10 @@ def spy_optic(c, nrays, wavelengths, primary_index, fields=((0.0, 0.0), (0.0, 1.
     WG.primary_index = primary_index
 
     class FG(StubBase):
+        # a field table whose field of largest magnitude is negative, e.g. (-14, 0, 5): fields are normalised by max_field (the
+        # magnitude); max_y_field (largest signed y) is a different number and must not be what the analyses scale with
         max_field = 14.0
-        max_y_field = 14.0
+        max_y_field = 5.0
 
         def get_field_coords(self):
             return list(fields)
